@@ -44,6 +44,18 @@ def shapes(tier):
             J.append(job([S("once", 1, effect=eff), STEP, STEP]))
             J.append(job([S("once", 1, effect=eff), UNTIL("abs")], max_steps=3))
             J.append(job([S("periodic", 1, origin=1, effect=eff), UNTIL("rel"), STEP], max_steps=3))
+    # every request kind through the event API (Scheduler::schedule_*event / Context::schedule_*event)
+    for k in ("once", "periodic", "keyed", "kperiodic"):
+        for d in dls:
+            for o in (0, 2):
+                J.append(job([S(k, 1, dl=d, origin=o, api="event"), STEP, STEP]))
+                J.append(job([S("once", 5), S(k, 1, dl=d, origin=o, api="event"), UNTIL("abs")], max_steps=3))
+    # a request arriving through a Scheduler handle while the stepping thread is inside Clock::synchronize (no lock held)
+    for k in kinds:
+        for d in dls:
+            req = dict(op="sched", kind=k, dl=d, id=7)
+            J.append(job([S("once", 1), STEP, STEP, STEP], clock=[req]))
+            J.append(job([S("once", 1), S("once", 2, dl="rel"), UNTIL("abs"), STEP], clock=["ok", req], max_steps=3))
     # cancelled actions are skipped when choosing the next time
     J.append(job([S("keyed", 1), S("once", 2), CANCEL(1), STEP, STEP]))
     J.append(job([S("keyed", 1), CANCEL(1), STEP, UNTIL("abs")]))
